@@ -52,7 +52,7 @@ partial def findRule (r : String) : List PTree → Option PTree
 
 def compareTree (input : String) (obsTree : Json) : List String × List String × Option (List PTree) :=
   -- (corr, spec, model tree)
-  match Peg.parse Gen.grammar Gen.programRule input with
+  match Gen.parseTx3 Gen.programRule input with
   | .fuelOut => (["model-out-of-fuel"], [], none)
   | .ok _ ts =>
     if hasKey obsTree "ok" then
